@@ -747,7 +747,7 @@ Notes:
 
     def Finalize(self):
         """cleanup upon exiting the main optimization loop"""
-        if self._live and (self._energy_history is not None or not len(self._stepmon)):
+        if self._live and (self._energy_history is not None or (not len(self._stepmon) and self._fcalls[0])):
             self.energy_history = None # resync with 'best' energy
             self._stepmon(self.bestSolution, self.bestEnergy, self.id)
             # if savefrequency matches, then save state
